@@ -2163,6 +2163,12 @@ func evalIntExpr(c *Ctx, v ssa.Value, leaves map[ssa.Value]int64, bind map[*ssa.
 			return a << uint(b), true
 		case token.AND:
 			return a & b, true
+		case token.OR:
+			return a | b, true
+		case token.XOR:
+			return a ^ b, true
+		case token.AND_NOT:
+			return a &^ b, true
 		}
 	case *ssa.Call:
 		if g := x.Call.StaticCallee(); g != nil && c.InModule(g) && len(g.Blocks) == 1 {
